@@ -1,1 +1,802 @@
-//! (stub)
+//! Reference model of DWARF line-number programs (DWARF 2-5, section 6.2), written from the
+//! standard / DESIGN.md Appendix A.4 and independent of gimli.
+//!
+//! * `Hdr`       — header parameters and directory / file tables (v2-4 lists, v5 entry formats).
+//! * `Ins`       — one instruction; `decode` turns program bytes into instructions (model-side
+//!                 decoder with its own LEB128), `Machine` executes them.
+//! * `Machine`   — the state machine of 6.2.2 / 6.2.5 incl. VLIW `op_index`.
+//!
+//! Strict part (what the standard fixes): everything a *well-formed* program does.  A program
+//! stops being well-formed at the first of these events, which `Machine` records in `ill`:
+//! line register would become negative or wrap, address arithmetic leaves the address size
+//! (or u64), `DW_LNE_set_address` below the current address of the sequence or >= the
+//! tombstone minimum 2^(8*size)-2.
+//!
+//! PINNED (secondary) behaviour, followed only so that the harness can *predict* what the
+//! pinned tree does after such an event; it can never fail a run:
+//!   - negative line result saturates at 0, positive overflow wraps;
+//!   - address overflow => the reader reports `AddressOverflow` (model: `err = true`, stop);
+//!   - tombstoned `set_address`: address/op_index advances are ignored and rows suppressed
+//!     until the next accepted `set_address` or the end of the sequence; the end_sequence row
+//!     is kept iff the sequence already produced a row.
+
+use crate::asm::Enc;
+
+pub const LNS_COPY: u8 = 1;
+pub const LNS_ADVANCE_PC: u8 = 2;
+pub const LNS_ADVANCE_LINE: u8 = 3;
+pub const LNS_SET_FILE: u8 = 4;
+pub const LNS_SET_COLUMN: u8 = 5;
+pub const LNS_NEGATE_STMT: u8 = 6;
+pub const LNS_SET_BASIC_BLOCK: u8 = 7;
+pub const LNS_CONST_ADD_PC: u8 = 8;
+pub const LNS_FIXED_ADVANCE_PC: u8 = 9;
+pub const LNS_SET_PROLOGUE_END: u8 = 10;
+pub const LNS_SET_EPILOGUE_BEGIN: u8 = 11;
+pub const LNS_SET_ISA: u8 = 12;
+
+pub const LNE_END_SEQUENCE: u8 = 1;
+pub const LNE_SET_ADDRESS: u8 = 2;
+pub const LNE_DEFINE_FILE: u8 = 3;
+pub const LNE_SET_DISCRIMINATOR: u8 = 4;
+
+pub const LNCT_PATH: u64 = 1;
+pub const LNCT_DIRECTORY_INDEX: u64 = 2;
+pub const LNCT_TIMESTAMP: u64 = 3;
+pub const LNCT_SIZE: u64 = 4;
+pub const LNCT_MD5: u64 = 5;
+pub const LNCT_LLVM_SOURCE: u64 = 0x2001;
+
+pub const FORM_BLOCK2: u16 = 0x03;
+pub const FORM_BLOCK4: u16 = 0x04;
+pub const FORM_DATA2: u16 = 0x05;
+pub const FORM_DATA4: u16 = 0x06;
+pub const FORM_DATA8: u16 = 0x07;
+pub const FORM_STRING: u16 = 0x08;
+pub const FORM_BLOCK: u16 = 0x09;
+pub const FORM_BLOCK1: u16 = 0x0a;
+pub const FORM_DATA1: u16 = 0x0b;
+pub const FORM_FLAG: u16 = 0x0c;
+pub const FORM_SDATA: u16 = 0x0d;
+pub const FORM_STRP: u16 = 0x0e;
+pub const FORM_UDATA: u16 = 0x0f;
+pub const FORM_SEC_OFFSET: u16 = 0x17;
+pub const FORM_STRX: u16 = 0x1a;
+pub const FORM_STRP_SUP: u16 = 0x1d;
+pub const FORM_DATA16: u16 = 0x1e;
+pub const FORM_LINE_STRP: u16 = 0x1f;
+pub const FORM_STRX1: u16 = 0x25;
+pub const FORM_STRX2: u16 = 0x26;
+pub const FORM_STRX3: u16 = 0x27;
+pub const FORM_STRX4: u16 = 0x28;
+pub const FORM_GNU_STR_INDEX: u16 = 0x1f02;
+pub const FORM_GNU_STRP_ALT: u16 = 0x1f21;
+
+/// A decoded form value, at the granularity at which a reader reports it.
+#[derive(Clone, Debug, PartialEq, Eq)]
+pub enum AV {
+    Block(Vec<u8>),
+    Data1(u8),
+    Data2(u16),
+    Data4(u32),
+    Data8(u64),
+    Udata(u64),
+    Sdata(i64),
+    Flag(bool),
+    SecOffset(u64),
+    /// inline NUL-terminated string (without the NUL)
+    Str(Vec<u8>),
+    Strp(u64),
+    StrpSup(u64),
+    LineStrp(u64),
+    Strx(u64),
+    /// something the model has no name for (only produced from the observed side)
+    Other(String),
+}
+
+impl AV {
+    /// Unsigned value of a constant-class form (None for anything else, and for negative sdata).
+    pub fn udata(&self) -> Option<u64> {
+        Some(match self {
+            AV::Data1(v) => *v as u64,
+            AV::Data2(v) => *v as u64,
+            AV::Data4(v) => *v as u64,
+            AV::Data8(v) => *v,
+            AV::Udata(v) => *v,
+            AV::Sdata(v) if *v >= 0 => *v as u64,
+            _ => return None,
+        })
+    }
+}
+
+/// One file table entry as the standard defines it.
+#[derive(Clone, Debug, PartialEq, Eq)]
+pub struct FileM {
+    pub path: AV,
+    pub dir: u64,
+    pub mtime: u64,
+    pub size: u64,
+    pub md5: [u8; 16],
+    pub source: Option<AV>,
+}
+
+impl FileM {
+    pub fn v4(name: &[u8], dir: u64, mtime: u64, size: u64) -> FileM {
+        FileM { path: AV::Str(name.to_vec()), dir, mtime, size, md5: [0; 16], source: None }
+    }
+}
+
+/// v5 entry format: (content type, form).
+pub type Fmt = (u64, u16);
+
+/// File entry of a v5 table from its fields (in format order).
+/// Returns the entry and whether every (content type, form) combination was one the
+/// standard lists (otherwise the interpretation is pinned, not strict).
+pub fn derive_file_v5(fmt: &[Fmt], vals: &[AV]) -> (FileM, bool) {
+    let mut f = FileM { path: AV::Other("missing".into()), dir: 0, mtime: 0, size: 0, md5: [0; 16], source: None };
+    let mut strict = true;
+    let mut seen: Vec<u64> = vec![];
+    for ((ct, form), v) in fmt.iter().zip(vals.iter()) {
+        if seen.contains(ct) && *ct <= LNCT_MD5 {
+            strict = false; // duplicate standard content type: standard silent
+        }
+        seen.push(*ct);
+        match *ct {
+            LNCT_PATH => {
+                f.path = v.clone();
+                if !is_string_form(*form) {
+                    strict = false;
+                }
+            }
+            LNCT_DIRECTORY_INDEX => {
+                if let Some(x) = v.udata() {
+                    f.dir = x;
+                }
+                if !matches!(*form, FORM_DATA1 | FORM_DATA2 | FORM_UDATA) {
+                    strict = false;
+                }
+            }
+            LNCT_TIMESTAMP => {
+                if let Some(x) = v.udata() {
+                    f.mtime = x;
+                }
+                if !matches!(*form, FORM_UDATA | FORM_DATA4 | FORM_DATA8) {
+                    strict = false;
+                }
+            }
+            LNCT_SIZE => {
+                if let Some(x) = v.udata() {
+                    f.size = x;
+                }
+                if !matches!(*form, FORM_UDATA | FORM_DATA1 | FORM_DATA2 | FORM_DATA4 | FORM_DATA8) {
+                    strict = false;
+                }
+            }
+            LNCT_MD5 => {
+                if let AV::Block(b) = v {
+                    if b.len() == 16 {
+                        f.md5.copy_from_slice(b);
+                    }
+                }
+                if *form != FORM_DATA16 {
+                    strict = false;
+                }
+            }
+            LNCT_LLVM_SOURCE => {
+                f.source = Some(v.clone());
+            }
+            _ => {}
+        }
+    }
+    (f, strict)
+}
+
+pub fn derive_dir_v5(fmt: &[Fmt], vals: &[AV]) -> AV {
+    let mut p = AV::Other("missing".into());
+    for ((ct, _), v) in fmt.iter().zip(vals.iter()) {
+        if *ct == LNCT_PATH {
+            p = v.clone();
+        }
+    }
+    p
+}
+
+pub fn is_string_form(form: u16) -> bool {
+    matches!(
+        form,
+        FORM_STRING | FORM_STRP | FORM_LINE_STRP | FORM_STRP_SUP | FORM_GNU_STRP_ALT | FORM_STRX | FORM_GNU_STR_INDEX | FORM_STRX1 | FORM_STRX2 | FORM_STRX3 | FORM_STRX4
+    )
+}
+
+/// Line-number program header: parameters and tables.
+#[derive(Clone, Debug)]
+pub struct Hdr {
+    pub enc: Enc,
+    pub min_inst_len: u8,
+    /// For version < 4 this is not encoded and must be 1.
+    pub max_ops: u8,
+    pub default_is_stmt: bool,
+    /// raw byte written for default_is_stmt (any non-zero value means true)
+    pub default_is_stmt_raw: u8,
+    pub line_base: i8,
+    pub line_range: u8,
+    pub opcode_base: u8,
+    /// opcode_base - 1 entries
+    pub std_lengths: Vec<u8>,
+    // ---- version <= 4
+    pub dirs_v4: Vec<Vec<u8>>,
+    pub files_v4: Vec<(Vec<u8>, u64, u64, u64)>,
+    // ---- version 5
+    pub dir_fmt: Vec<Fmt>,
+    pub dirs_v5: Vec<Vec<AV>>,
+    pub file_fmt: Vec<Fmt>,
+    pub files_v5: Vec<Vec<AV>>,
+    /// bytes between the end of the tables and the first instruction (covered by header_length)
+    pub pad: Vec<u8>,
+}
+
+impl Hdr {
+    pub fn v5(&self) -> bool {
+        self.enc.version >= 5
+    }
+    pub fn mask(&self) -> u64 {
+        self.enc.addr_mask()
+    }
+    /// `include_directories` as a reader lists them.
+    pub fn dir_table(&self) -> Vec<AV> {
+        if self.v5() {
+            self.dirs_v5.iter().map(|v| derive_dir_v5(&self.dir_fmt, v)).collect()
+        } else {
+            self.dirs_v4.iter().map(|d| AV::Str(d.clone())).collect()
+        }
+    }
+    /// `file_names` as a reader lists them (before any DW_LNE_define_file).
+    pub fn file_table(&self) -> Vec<FileM> {
+        if self.v5() {
+            self.files_v5.iter().map(|v| derive_file_v5(&self.file_fmt, v).0).collect()
+        } else {
+            self.files_v4.iter().map(|(n, d, m, s)| FileM::v4(n, *d, *m, *s)).collect()
+        }
+    }
+    /// Are all v5 table entries in standard (content type, form) combinations?
+    pub fn tables_strict(&self) -> bool {
+        if !self.v5() {
+            return true;
+        }
+        self.files_v5.iter().all(|v| derive_file_v5(&self.file_fmt, v).1)
+            && self.dir_fmt.iter().all(|(ct, form)| *ct != LNCT_PATH || is_string_form(*form))
+    }
+    /// Directory with index `i` (v <= 4: 0 is the compilation directory, 1-based after that;
+    /// v5: 0-based).
+    pub fn directory(&self, i: u64, comp_dir: Option<&[u8]>) -> Option<AV> {
+        let t = self.dir_table();
+        if self.v5() {
+            usize::try_from(i).ok().and_then(|i| t.get(i).cloned())
+        } else if i == 0 {
+            comp_dir.map(|d| AV::Str(d.to_vec()))
+        } else {
+            usize::try_from(i - 1).ok().and_then(|i| t.get(i).cloned())
+        }
+    }
+    /// File with index `i` in `table` (the table may have grown by define_file).
+    pub fn file(&self, table: &[FileM], i: u64, comp_name: Option<&[u8]>) -> Option<FileM> {
+        if self.v5() {
+            usize::try_from(i).ok().and_then(|i| table.get(i).cloned())
+        } else if i == 0 {
+            comp_name.map(|n| FileM::v4(n, 0, 0, 0))
+        } else {
+            usize::try_from(i - 1).ok().and_then(|i| table.get(i).cloned())
+        }
+    }
+    /// Classification of an opcode byte under this header.
+    pub fn class(&self, op: u8) -> OpClass {
+        if op == 0 {
+            OpClass::Extended
+        } else if op >= self.opcode_base {
+            OpClass::Special
+        } else if op <= LNS_SET_ISA {
+            OpClass::Standard
+        } else {
+            OpClass::UnknownStandard(self.std_lengths.get(op as usize - 1).copied().unwrap_or(0))
+        }
+    }
+    /// Is the standard opcode `op` usable (i.e. not shadowed by a special opcode)?
+    pub fn has_std(&self, op: u8) -> bool {
+        op >= 1 && op < self.opcode_base
+    }
+}
+
+#[derive(Clone, Copy, Debug, PartialEq, Eq)]
+pub enum OpClass {
+    Extended,
+    Special,
+    Standard,
+    UnknownStandard(u8),
+}
+
+#[derive(Clone, Copy, Debug, PartialEq, Eq, Default)]
+pub struct Row {
+    pub address: u64,
+    pub op_index: u64,
+    pub file: u64,
+    pub line: u64,
+    pub column: u64,
+    pub is_stmt: bool,
+    pub basic_block: bool,
+    pub end_sequence: bool,
+    pub prologue_end: bool,
+    pub epilogue_begin: bool,
+    pub isa: u64,
+    pub discriminator: u64,
+}
+
+impl Row {
+    /// Name of the first field in which two rows differ.
+    pub fn first_diff(&self, o: &Row) -> Option<&'static str> {
+        if self.address != o.address {
+            Some("address")
+        } else if self.op_index != o.op_index {
+            Some("op_index")
+        } else if self.file != o.file {
+            Some("file")
+        } else if self.line != o.line {
+            Some("line")
+        } else if self.column != o.column {
+            Some("column")
+        } else if self.is_stmt != o.is_stmt {
+            Some("is_stmt")
+        } else if self.basic_block != o.basic_block {
+            Some("basic_block")
+        } else if self.end_sequence != o.end_sequence {
+            Some("end_sequence")
+        } else if self.prologue_end != o.prologue_end {
+            Some("prologue_end")
+        } else if self.epilogue_begin != o.epilogue_begin {
+            Some("epilogue_begin")
+        } else if self.isa != o.isa {
+            Some("isa")
+        } else if self.discriminator != o.discriminator {
+            Some("discriminator")
+        } else {
+            None
+        }
+    }
+}
+
+/// One line-number instruction.  `extra` = bytes inside an extended instruction's length
+/// that follow its defined operands (a consumer skips them using the length).
+#[derive(Clone, Debug, PartialEq, Eq)]
+pub enum Ins {
+    Special(u8),
+    Copy,
+    AdvancePc(u64),
+    AdvanceLine(i64),
+    SetFile(u64),
+    SetColumn(u64),
+    NegateStmt,
+    SetBasicBlock,
+    ConstAddPc,
+    FixedAdvancePc(u16),
+    SetPrologueEnd,
+    SetEpilogueBegin,
+    SetIsa(u64),
+    /// opcode below opcode_base that the standard does not define; operands per
+    /// standard_opcode_lengths
+    UnknownStd(u8, Vec<u64>),
+    EndSequence { extra: Vec<u8> },
+    SetAddress { addr: u64, extra: Vec<u8> },
+    DefineFile { name: Vec<u8>, dir: u64, mtime: u64, size: u64, extra: Vec<u8> },
+    SetDiscriminator { v: u64, extra: Vec<u8> },
+    /// unknown extended opcode (incl. DW_LNE_define_file in version 5) with its payload
+    UnknownExt(u8, Vec<u8>),
+}
+
+impl Ins {
+    pub fn kind(&self) -> &'static str {
+        match self {
+            Ins::Special(_) => "special",
+            Ins::Copy => "copy",
+            Ins::AdvancePc(_) => "advance_pc",
+            Ins::AdvanceLine(_) => "advance_line",
+            Ins::SetFile(_) => "set_file",
+            Ins::SetColumn(_) => "set_column",
+            Ins::NegateStmt => "negate_stmt",
+            Ins::SetBasicBlock => "set_basic_block",
+            Ins::ConstAddPc => "const_add_pc",
+            Ins::FixedAdvancePc(_) => "fixed_advance_pc",
+            Ins::SetPrologueEnd => "set_prologue_end",
+            Ins::SetEpilogueBegin => "set_epilogue_begin",
+            Ins::SetIsa(_) => "set_isa",
+            Ins::UnknownStd(_, a) => match a.len() {
+                0 => "unknown_std0",
+                1 => "unknown_std1",
+                _ => "unknown_stdN",
+            },
+            Ins::EndSequence { .. } => "end_sequence",
+            Ins::SetAddress { .. } => "set_address",
+            Ins::DefineFile { .. } => "define_file",
+            Ins::SetDiscriminator { .. } => "set_discriminator",
+            Ins::UnknownExt(..) => "unknown_ext",
+        }
+    }
+}
+
+// ---------------------------------------------------------------- model-side decoder
+
+fn rd_uleb(b: &[u8], pos: &mut usize) -> Option<u64> {
+    let mut v: u128 = 0;
+    let mut shift = 0u32;
+    let mut n = 0;
+    loop {
+        let x = *b.get(*pos)?;
+        *pos += 1;
+        n += 1;
+        if n > 10 {
+            return None;
+        }
+        v |= ((x & 0x7f) as u128) << shift;
+        shift += 7;
+        if x & 0x80 == 0 {
+            break;
+        }
+    }
+    if v > u64::MAX as u128 {
+        None
+    } else {
+        Some(v as u64)
+    }
+}
+
+fn rd_sleb(b: &[u8], pos: &mut usize) -> Option<i64> {
+    let mut v: i128 = 0;
+    let mut shift = 0u32;
+    let mut n = 0;
+    loop {
+        let x = *b.get(*pos)?;
+        *pos += 1;
+        n += 1;
+        if n > 10 {
+            return None;
+        }
+        v |= ((x & 0x7f) as i128) << shift;
+        shift += 7;
+        if x & 0x80 == 0 {
+            if x & 0x40 != 0 {
+                v |= -1i128 << shift;
+            }
+            break;
+        }
+    }
+    if v < i64::MIN as i128 || v > i64::MAX as i128 {
+        None
+    } else {
+        Some(v as i64)
+    }
+}
+
+fn rd_uint(b: &[u8], pos: &mut usize, le: bool, n: usize) -> Option<u64> {
+    if b.len() < *pos + n {
+        return None;
+    }
+    let v = crate::asm::get_uint(&b[*pos..], le, n);
+    *pos += n;
+    Some(v)
+}
+
+/// Decode a whole program.  Returns the instructions with their start offsets and
+/// `complete == true` iff every byte belonged to a completely decoded instruction.
+pub fn decode(h: &Hdr, prog: &[u8]) -> (Vec<(usize, Ins)>, bool) {
+    let mut out = vec![];
+    let mut pos = 0usize;
+    while pos < prog.len() {
+        let start = pos;
+        match decode_one(h, prog, &mut pos) {
+            Some(i) => out.push((start, i)),
+            None => return (out, false),
+        }
+    }
+    (out, true)
+}
+
+fn decode_one(h: &Hdr, b: &[u8], pos: &mut usize) -> Option<Ins> {
+    let op = *b.get(*pos)?;
+    *pos += 1;
+    Some(match h.class(op) {
+        OpClass::Special => Ins::Special(op),
+        OpClass::Extended => {
+            let len = rd_uleb(b, pos)?;
+            let len = usize::try_from(len).ok()?;
+            let end = pos.checked_add(len)?;
+            if end > b.len() || len == 0 {
+                return None;
+            }
+            let body = &b[*pos..end];
+            *pos = end;
+            let sub = body[0];
+            let mut p = 1usize;
+            match sub {
+                LNE_END_SEQUENCE => Ins::EndSequence { extra: body[p..].to_vec() },
+                LNE_SET_ADDRESS => {
+                    let addr = rd_uint(body, &mut p, h.enc.le, h.enc.addr as usize)?;
+                    Ins::SetAddress { addr, extra: body[p..].to_vec() }
+                }
+                LNE_DEFINE_FILE if !h.v5() => {
+                    let nul = body[p..].iter().position(|x| *x == 0)?;
+                    let name = body[p..p + nul].to_vec();
+                    p += nul + 1;
+                    let dir = rd_uleb(body, &mut p)?;
+                    let mtime = rd_uleb(body, &mut p)?;
+                    let size = rd_uleb(body, &mut p)?;
+                    Ins::DefineFile { name, dir, mtime, size, extra: body[p..].to_vec() }
+                }
+                LNE_SET_DISCRIMINATOR => {
+                    let v = rd_uleb(body, &mut p)?;
+                    Ins::SetDiscriminator { v, extra: body[p..].to_vec() }
+                }
+                _ => Ins::UnknownExt(sub, body[1..].to_vec()),
+            }
+        }
+        OpClass::Standard => match op {
+            LNS_COPY => Ins::Copy,
+            LNS_ADVANCE_PC => Ins::AdvancePc(rd_uleb(b, pos)?),
+            LNS_ADVANCE_LINE => Ins::AdvanceLine(rd_sleb(b, pos)?),
+            LNS_SET_FILE => Ins::SetFile(rd_uleb(b, pos)?),
+            LNS_SET_COLUMN => Ins::SetColumn(rd_uleb(b, pos)?),
+            LNS_NEGATE_STMT => Ins::NegateStmt,
+            LNS_SET_BASIC_BLOCK => Ins::SetBasicBlock,
+            LNS_CONST_ADD_PC => Ins::ConstAddPc,
+            LNS_FIXED_ADVANCE_PC => Ins::FixedAdvancePc(rd_uint(b, pos, h.enc.le, 2)? as u16),
+            LNS_SET_PROLOGUE_END => Ins::SetPrologueEnd,
+            LNS_SET_EPILOGUE_BEGIN => Ins::SetEpilogueBegin,
+            _ => Ins::SetIsa(rd_uleb(b, pos)?),
+        },
+        OpClass::UnknownStandard(n) => {
+            let mut args = vec![];
+            for _ in 0..n {
+                args.push(rd_uleb(b, pos)?);
+            }
+            Ins::UnknownStd(op, args)
+        }
+    })
+}
+
+// ---------------------------------------------------------------- state machine
+
+#[derive(Clone, Debug)]
+pub struct Machine {
+    pub min_inst_len: u64,
+    pub max_ops: u64,
+    pub line_base: i64,
+    pub line_range: u64,
+    pub opcode_base: u64,
+    pub default_is_stmt: bool,
+    pub mask: u64,
+    pub v5: bool,
+    pub reg: Row,
+    /// PINNED: inside a tombstoned part of a sequence
+    pub tomb: bool,
+    /// a row was emitted for the current sequence
+    pub seq_has_rows: bool,
+    /// the program left the well-formed domain at some earlier point
+    pub ill: bool,
+    /// PINNED: the reader reports AddressOverflow here
+    pub err: bool,
+}
+
+#[derive(Clone, Debug, Default)]
+pub struct Step {
+    /// row appended to the matrix by this instruction
+    pub row: Option<Row>,
+    /// file appended to the file table by this instruction
+    pub file: Option<FileM>,
+}
+
+impl Machine {
+    pub fn new(h: &Hdr) -> Machine {
+        let mut m = Machine {
+            min_inst_len: h.min_inst_len as u64,
+            max_ops: h.max_ops as u64,
+            line_base: h.line_base as i64,
+            line_range: h.line_range as u64,
+            opcode_base: h.opcode_base as u64,
+            default_is_stmt: h.default_is_stmt,
+            mask: h.mask(),
+            v5: h.v5(),
+            reg: Row::default(),
+            tomb: false,
+            seq_has_rows: false,
+            ill: false,
+            err: false,
+        };
+        m.reset_sequence();
+        m
+    }
+
+    fn reset_sequence(&mut self) {
+        self.reg = Row { address: 0, op_index: 0, file: 1, line: 1, column: 0, is_stmt: self.default_is_stmt, ..Row::default() };
+        self.tomb = false;
+    }
+
+    fn add_line(&mut self, d: i64) {
+        let r = self.reg.line as i128 + d as i128;
+        if r < 0 {
+            self.ill = true;
+            self.reg.line = 0; // PINNED
+        } else if r > u64::MAX as i128 {
+            self.ill = true;
+            self.reg.line = r as u64; // PINNED: wraps
+        } else {
+            self.reg.line = r as u64;
+        }
+    }
+
+    /// 6.2.5.1: operation advance.
+    fn op_advance(&mut self, adv: u64) {
+        if self.tomb {
+            return; // PINNED
+        }
+        let (addr_adv, new_op_index, wrapped): (u128, u64, bool) = if self.max_ops == 1 {
+            (self.min_inst_len as u128 * adv as u128, 0, false)
+        } else {
+            let s = self.reg.op_index as u128 + adv as u128;
+            let wrapped = s > u64::MAX as u128;
+            // PINNED on wrap: 64-bit wrapping arithmetic
+            let s64 = s as u64;
+            let (q, r) = if wrapped { ((s64 / self.max_ops) as u128, s64 % self.max_ops) } else { (s / self.max_ops as u128, (s % self.max_ops as u128) as u64) };
+            (self.min_inst_len as u128 * q, r, wrapped)
+        };
+        if wrapped || addr_adv > u64::MAX as u128 {
+            // PINNED: the product wraps to 64 bits
+            self.ill = true;
+        }
+        let addr_adv = addr_adv as u64;
+        self.reg.op_index = new_op_index;
+        match self.reg.address.checked_add(addr_adv) {
+            Some(a) if a & !self.mask == 0 => self.reg.address = a,
+            _ => {
+                self.ill = true;
+                self.err = true;
+            }
+        }
+    }
+
+    fn emit(&mut self, end: bool) -> Option<Row> {
+        self.reg.end_sequence = end;
+        let suppressed = self.tomb && !(end && self.seq_has_rows);
+        let row = if suppressed { None } else { Some(self.reg) };
+        if !suppressed {
+            self.seq_has_rows = !end;
+        }
+        if end {
+            self.reset_sequence();
+        } else {
+            self.reg.basic_block = false;
+            self.reg.prologue_end = false;
+            self.reg.epilogue_begin = false;
+            self.reg.discriminator = 0;
+        }
+        row
+    }
+
+    /// Execute one instruction.  After `err` the machine must not be stepped further.
+    pub fn step(&mut self, i: &Ins) -> Step {
+        let mut out = Step::default();
+        match i {
+            Ins::Special(op) => {
+                let adj = (*op as u64).wrapping_sub(self.opcode_base) & 0xff;
+                self.add_line(self.line_base + (adj % self.line_range) as i64);
+                self.op_advance(adj / self.line_range);
+                if !self.err {
+                    out.row = self.emit(false);
+                }
+            }
+            Ins::Copy => out.row = self.emit(false),
+            Ins::AdvancePc(a) => self.op_advance(*a),
+            Ins::AdvanceLine(d) => self.add_line(*d),
+            Ins::SetFile(f) => self.reg.file = *f,
+            Ins::SetColumn(c) => self.reg.column = *c,
+            Ins::NegateStmt => self.reg.is_stmt = !self.reg.is_stmt,
+            Ins::SetBasicBlock => self.reg.basic_block = true,
+            Ins::ConstAddPc => {
+                let adj = 255 - self.opcode_base;
+                self.op_advance(adj / self.line_range);
+            }
+            Ins::FixedAdvancePc(d) => {
+                if !self.tomb {
+                    match self.reg.address.checked_add(*d as u64) {
+                        Some(a) if a & !self.mask == 0 => {
+                            self.reg.address = a;
+                            self.reg.op_index = 0;
+                        }
+                        _ => {
+                            self.ill = true;
+                            self.err = true;
+                        }
+                    }
+                }
+            }
+            Ins::SetPrologueEnd => self.reg.prologue_end = true,
+            Ins::SetEpilogueBegin => self.reg.epilogue_begin = true,
+            Ins::SetIsa(v) => self.reg.isa = *v,
+            Ins::UnknownStd(..) | Ins::UnknownExt(..) => {}
+            Ins::EndSequence { .. } => out.row = self.emit(true),
+            Ins::SetAddress { addr, .. } => {
+                let min_tomb = self.mask.wrapping_sub(1);
+                let t = *addr < self.reg.address || *addr >= min_tomb;
+                if t {
+                    self.ill = true; // decreasing / tombstone address: outside the strict domain
+                }
+                self.tomb = t;
+                if !t {
+                    self.reg.address = *addr;
+                    self.reg.op_index = 0;
+                }
+            }
+            Ins::DefineFile { name, dir, mtime, size, .. } => {
+                out.file = Some(FileM::v4(name, *dir, *mtime, *size));
+            }
+            Ins::SetDiscriminator { v, .. } => self.reg.discriminator = *v,
+        }
+        out
+    }
+}
+
+/// Result of running a whole program through the model.
+#[derive(Clone, Debug, Default)]
+pub struct Run {
+    pub rows: Vec<Row>,
+    /// file table after the run (header files + define_file)
+    pub files: Vec<FileM>,
+    /// one per emitted end_sequence row: (start address if the sequence has a row before the
+    /// end row, end address, index of the sequence's first row in `rows`, index one past its
+    /// end_sequence row)
+    pub seqs: Vec<SeqM>,
+    /// the program stayed inside the strict domain (well-formed) to the end
+    pub wellformed: bool,
+    /// PINNED: reader reports AddressOverflow after `rows`
+    pub err: bool,
+    /// number of rows emitted while still well-formed (rows[..strict_rows] are strict)
+    pub strict_rows: usize,
+}
+
+#[derive(Clone, Debug, PartialEq, Eq)]
+pub struct SeqM {
+    pub start: Option<u64>,
+    pub end: u64,
+    pub first: usize,
+    pub past: usize,
+}
+
+pub fn run(h: &Hdr, ins: &[Ins], complete: bool) -> Run {
+    let mut m = Machine::new(h);
+    let mut r = Run { files: h.file_table(), ..Run::default() };
+    let mut first = 0usize;
+    let mut start: Option<u64> = None;
+    let mut strict_rows = 0usize;
+    for i in ins {
+        let s = m.step(i);
+        if let Some(f) = s.file {
+            r.files.push(f);
+        }
+        if m.err {
+            break;
+        }
+        if let Some(row) = s.row {
+            r.rows.push(row);
+            if !m.ill {
+                strict_rows = r.rows.len();
+            }
+            if row.end_sequence {
+                r.seqs.push(SeqM { start, end: row.address, first, past: r.rows.len() });
+                first = r.rows.len();
+                start = None;
+            } else if start.is_none() {
+                start = Some(row.address);
+            }
+        }
+    }
+    r.err = m.err;
+    r.wellformed = !m.ill && complete;
+    r.strict_rows = strict_rows;
+    r
+}
